@@ -7,6 +7,9 @@ _RX_FIELD = re.compile(r'^No "([^"]*)" field at record (\d+)')
 _RX_B = re.compile(r'at record (\d+) in "B" table')
 
 
+_CONFIRMED_TIMEOUTS = [0]      # per worker process: after three confirmed timeouts further ones are believed at once
+
+
 def classify_py(e):
     eng = tree.engine()
     msg = str(e)
@@ -63,7 +66,9 @@ def run_py(text, A, B=None, a_names=None, b_names=None, timeout=10.0, normalize=
     except BaseException as e:
         if isinstance(e, (KeyboardInterrupt, SystemExit)):
             raise
-        if isinstance(e, core.CaseTimeout) and not _second_try:
+        if isinstance(e, core.CaseTimeout) and _second_try:
+            _CONFIRMED_TIMEOUTS[0] += 1
+        if isinstance(e, core.CaseTimeout) and not _second_try and _CONFIRMED_TIMEOUTS[0] < 3:
             # a timeout is a wall-clock judgement: confirm it once with a 12x budget on private copies before it may become a verdict
             return run_py(text, [list(r) if isinstance(r, list) else r for r in A], None if B is None else [list(r) if isinstance(r, list) else r for r in B], a_names, b_names, timeout * 12, normalize, True)
         return {'records': None, 'partial': out, 'header': None, 'warnings': warns, 'error': classify_py(e)}
